@@ -3,7 +3,21 @@
 
 The oracle is written from the statement with `datetime` and `Fraction` only; it never looks at
 the Lean model.  Inputs are calendar days (ordinals), date-times in whole milliseconds since
-1900-01-01T00:00, integer serials and day offsets.
+1900-01-01T00:00, integer and float serials, day offsets and plain numbers.
+
+Case kinds (every one has a model request):
+  day          one calendar day: serialize_date, parse_date of it, the serial of the next day
+  serial       one integer serial: parse_date, serialize_date of it
+  dt           one date-time (ms): serialize_date, parse_date of it, the serial one millisecond later
+  parse        one float serial (num/den): parse_date, serialize_date of it
+  cmp          two date-times under < = > <= >= <>
+  cmpn         a plain number against a date-time (either side) under the six operators
+  add          date-time x and integer n: x+n, n+x, x-n
+  sub          two date-times: x-y, DAYS(x,y)
+  fn           DATEVALUE / N of a date-time given as a variable, as ISO text, as a whole-number serial
+  daysweep     a chunk of consecutive days (thorough, search): statement and model on every day
+  serialsweep  a chunk of consecutive integer serials (thorough, search)
+A case with a 'tz' key (day, dt, cmp, fn) is evaluated while that POSIX TZ string is the process time zone.
 """
 import contextlib
 import datetime
@@ -23,42 +37,104 @@ FUNCTIONS = ['hotxlfp.formulas.utils:serialize_date', 'hotxlfp.formulas.utils:pa
              'hotxlfp.formulas.operators:evaluate_arithmetic', 'hotxlfp.formulas.operators:value_and_type',
              'hotxlfp.formulas.operators:evaluate_logic', 'hotxlfp.formulas.operators:ExcelComparator.__init__',
              'hotxlfp.formulas.operators:ExcelComparator.convert_other']
-RULE = ('calendar days 1900-01-01..9999-12-31 (quick: every 97th day, every day of 1900, the days around every century '
-        'boundary and around 28 Feb/1 Mar of every century year; thorough: EVERY day, in chunks of 250000, each chunk one '
-        'case whose weight is its number of days); integer serials 0..2958465 (quick: every 101st from 61, all of 0..430 and '
-        'the last 40; thorough: EVERY one from 61); seeded date-times at millisecond resolution (uniform over the range, dense '
-        'in Jan-Mar 1900 and in Dec 9999, milliseconds next to midnight and next to 1 March 1900) and the float serials the '
-        'code produced for them; seeded pairs of date-times (incl. equal and 1 ms apart) under all six comparison operators; '
-        'seeded (date, n) with n in -40000..40000 and small n under + and -; seeded date pairs under - and DAYS; DATEVALUE / N '
-        'of dates given as DATE(y,m,d), as a variable, as ISO text and as a whole-number serial.  Formulas go through '
-        'Parser.parse, the sweeps call utils.serialize_date / utils.parse_date directly.  '
-        'PROCESS TIME ZONE: date-times in and around the skipped and the repeated hour of a daylight-saving zone (2021-03-14 / '
-        '2021-11-07 and two other years, 01:30 02:00 02:15 02:30 03:00 03:15), summer and winter days, 1970-01-01 and a seeded '
-        'sample are evaluated once more (serial + round trip, comparisons of neighbours, DATEVALUE / N, whole days) while '
-        'os.environ["TZ"] = EST5EDT,M3.2.0,M11.1.0 + time.tzset() is in force (restored afterwards): same oracle, same model answer.  '
-        'Every input is also given to the Lean model (date.serial / date.parse / eval with the date as a variable) and the answers compared: exactly for whole '
-        'days, within 4 ulp of the serial / 2+|us|/2^49 microseconds otherwise.  Non-trivial = not the special value '
-        '1900-01-01T00:00 / serial < 61; distinct = distinct day, date-time, serial or operand tuple.')
+RULE = ('DAYS 1900-01-01..9999-12-31 (kind day: serialize_date, parse_date of the serial, serial of the next day): 1504 special '
+        'days = every day of 1900 and 1901-01-01, the 3 days either side of 1 Jan and of 1 Mar of every century year 1900..9900, '
+        'the last 3 days of 9999, 28 Feb and the next two days of 1904 1970 2000 2020 2024 2100 2400 9996; quick adds every '
+        '97th day from 1900-01-01 and 9999-12-31 (31988 cases); thorough adds EVERY day (2958464) in 12 daysweep chunks of '
+        '250000, each chunk one case whose weight is its number of days (the statement on every day incl. the increase from '
+        'the day before, also across chunk borders).  INTEGER SERIALS 0..2958465 (kind serial: parse_date, serialize_date of '
+        'it): all of 0..430 and the last 41; quick adds every 101st from 61 (29759 cases); thorough adds EVERY one from 61 in '
+        '6 serialsweep chunks of 500000.  DATE-TIMES in whole milliseconds (kind dt: serial, round trip, serial one '
+        'millisecond later): 16 fixed (ms 0 1 999 1000; 1900-01-02T00:00 and the ms either side; 1 March 1900, the ms and the '
+        'day either side; the last ms of 9999, 9999-12-31T00:00 and the ms before it; 2020-01-15T12:00) + 2400*S seeded in six '
+        'equal streams: uniform over the range, first 100 days, last 100 days, within 2 ms of a midnight, whole seconds, whole '
+        'days; S = scale in quick (1, or 5 after a fingerprint change / broken build), 4*scale in thorough.  FLOAT SERIALS '
+        '(kind parse: parse_date, serialize_date of it): the serial the code produced for every second one of those date-times '
+        '(floats only) + 0.5 1.5 60 60.25 60.5 61 43845.5; judged from 61 on, below 61 only compared with the model.  '
+        'COMPARISONS (cmp): 500*S pairs of date-times '
+        'from a pool of 16+300*S (1/5 equal, 1/5 one ms later, 1/5 a day earlier or later, 2/5 two pool members) + 5 fixed pairs '
+        'around 1900-01-01 and 1 March 1900 in both orders, all six operators, also serials-follow-time.  NUMBER AGAINST '
+        'DATE-TIME (cmpn): 300*S; a day 1900-03-01..9999-12-30 at j/8 of the day (exact doubles), a number out of {whole-day '
+        'serial as int, as float, that +1, that -1, the exact serial, the exact serial + 1/8} on the left or on the right, '
+        'six operators.  ADD (add: x+n, n+x, x-n, integer n): 500*S in five equal streams (whole day with |n| <= 40000; '
+        'whole day with n out of -2 -1 0 1 2 7 28 29 30 31 365 366 -365 -366; pool date-time with |n| <= 40000; a day within '
+        '400 days of 1 March 1900 or of 9999-12-31 with |n| <= 450; whole day with |n| <= 2958464) + 13 fixed at both ends of '
+        'the range and at 28 Feb 2019 / 2020.  SUB (sub: x-y, DAYS(x,y)): 300*S (two whole days; two whole days at most 400 '
+        'apart; two pool date-times) + 5 fixed.  DATEVALUE / N (fn): 300*S (whole day; whole second; pool date-time) + 6 fixed; '
+        'DATEVALUE(x), N(x) of the variable, DATEVALUE(t) of the ISO text YYYY-MM-DD[ HH:MM:SS] when a whole second, '
+        'DATEVALUE(k) of the whole-number serial when a whole day from 1 March 1900.  Formulas go through Parser.parse with '
+        'variables x y n nn t k; when every date is a whole day cmp/add/sub/fn are run a second time with DATE(y,m,d), number '
+        'and text literals (negative n as (0-n)): oracle only, not sent to the model.  day/serial/dt/parse and the sweeps call '
+        'utils.serialize_date / utils.parse_date directly.  '
+        'PROCESS TIME ZONE: one zone, the POSIX string EST5EDT,M3.2.0,M11.1.0 (no tz database): 00:00 01:30 02:00 02:15 02:30 '
+        '03:00 03:15 12:00 of 2021-03-14 and 2030-03-10 (02:00-03:00 does not exist there), of 2021-11-07 (01:00-02:00 occurs '
+        'twice) and of 1987-04-05 (under this rule an ordinary summer-time day, not a transition), 2021-07-01, 2021-01-01, '
+        '1970-01-01, 1969-12-31T21:00, 1900-01-01, 1900-01-02, 1900-03-01 and 60*S seeded date-times are evaluated once more '
+        'while os.environ["TZ"] = that string + time.tzset() is in force (set and restored around every such case): each as '
+        'dt, each neighbour pair of that list in both orders as cmp, the first 40 as fn and the whole days among those as day '
+        '(S=1: 99 dt, 196 cmp, 40 fn, 10 day): same oracle, same model request.  '
+        'MODEL: every case has a request (date.serial / date.parse / c04.batch of the variable formulas with the dates as date '
+        'values), none is oracle-only; answers compared exactly for day, serial, whole-day dt, cmp, cmpn and for '
+        'add/sub/fn on whole days (dates to the microsecond); otherwise floats within 4 ulp (add/sub/fn also within '
+        '1e-9*max(1,|value|)), dates within 2+|us|/2^49 microseconds; a model answer "no opinion" counts as a disagreement.  '
+        'Sweep chunks: one more driver process per chunk answers date.serial and date.parse of the produced serial for every '
+        'day, date.parse for every integer serial, compared exactly (first 5 failures / mismatches of a chunk kept); all chunks '
+        'are computed at the first one, in min(8, cpus) forked workers, and cached.  search() (proof or correspondence broke, '
+        'no input failed): the 18 sweep chunks through implementation + statement, stopping at the first failing chunk; '
+        'shrink() turns a failing chunk into its first failing single day / serial (a break of monotonicity: the day before).  '
+        'No time or step budget other than the 3000 s wall-clock timeout of each driver process; nothing is set aside as '
+        'fragile.  Not judged by the oracle: serials below 61, add/sub with an operand before 1 March 1900, a single add form '
+        'whose result leaves 1900-03-01..9999-12-31.  Non-trivial = day other than 1900-01-01; serial (integer or float) >= '
+        '61; date-time other than 1900-01-01T00:00; cmp of two different instants; add with date and date+n in '
+        '1900-03-01..9999-12-31 and n != 0; sub of two different date-times from 1 March 1900; fn from 1 March 1900; every '
+        'cmpn; a sweep chunk counts by weight = (elements evaluated, the same without 1900-01-01, model lines).  distinct = '
+        'distinct case (kind, operands, tz).')
 TRUSTED = ['CPython datetime (timedelta arithmetic, total_seconds, rounding of timedelta(seconds=float) to microseconds) and '
            'IEEE double arithmetic: the model computes the same expressions in exact rationals; the differential sweep over '
-           'every day and every integer serial (exact agreement) and over seeded milliseconds (agreement within 4 ulp) ties them',
+           'every day and every integer serial (exact agreement) and over seeded milliseconds (agreement within 4 ulp of the '
+           'serial, 2+|us|/2^49 microseconds of the date; for formulas on date-times also 1e-9 relative to max(1,|value|), '
+           'fx.record_matches) ties them',
+           'the tolerances of the oracle: 1e-9 day (TOL) for serials and differences of date-times, less than 500 microseconds '
+           'for dates; Fraction(float) is the exact value of the double',
            'os.environ["TZ"] + time.tzset() sets the process time zone (glibc POSIX rule, no tz database); the references of the '
            'oracle are naive timedelta/Fraction arithmetic and do not consult it; the model has no time zone',
-           'dateutil.parser for DATEVALUE of ISO-8601 text (the model recognises YYYY-MM-DD[ HH:MM[:SS]] only)',
+           'dateutil.parser for DATEVALUE of ISO-8601 text (the model recognises YYYY-MM-DD[(T| )HH:MM[:SS]] only; the plugin '
+           'writes YYYY-MM-DD and YYYY-MM-DD HH:MM:SS)',
+           'fx.to_wire gives the model the value handed to Parser.set_variable (datetime as microseconds since 1900-01-01, float '
+           'as its exact fraction, text by code points); the `tz` key of a case is not part of the model request',
+           'the sweep mechanism: multiprocessing fork pool (sequential fallback), a separate run of the driver executable per '
+           'chunk, line-by-line pairing of requests and answers (a wrong count or return code aborts the run)',
            'the calendar constants (1900-01-01, 1970-01-01, 1899-12-30, 1900-03-01 as day offsets) are evaluated from '
            'lean/HotXL/Model/Calendar.lean by `decide`; that Calendar.lean is CPython\'s calendar is property C14\'s business']
-ASSUMPTIONS = ['"to the millisecond": parse_date(serialize_date(d)) is within half a millisecond of d (the code computes in '
-               'double precision: observed error <= 40 microseconds); for whole days the round trip is demanded exactly',
-               '"the serial equals the number of days since 30 December 1899": exactly for whole days, within 1e-9 day '
-               '(0.1 ms) for date-times',
+ASSUMPTIONS = ['"to the millisecond": parse_date(serialize_date(d)) is less than half a millisecond from d (the code computes in '
+               'double precision: observed error below 40 microseconds); for whole days the round trip is demanded exactly; '
+               'the round trip is demanded for every date-time from 1900-01-01T00:00 on, also before 1 March 1900',
+               '"invertible" on the serial side: for an integer serial k in 61..2958465 parse_date(k) is exactly the day k days '
+               'after 1899-12-30 and serialize_date of it is exactly k; for a float serial q from 61 on parse_date(q) is less '
+               'than half a millisecond from q days after 1899-12-30 and serialize_date of it within 1e-9 day of q; nothing '
+               'is demanded of serials below 61 (0 and 1 both parse to 1900-01-01, 60 and 61 both to 1900-03-01)',
+               '"monotone" = strictly increasing: from each day to the next over the whole range from 1900-01-01, from a '
+               'date-time to the one a millisecond later, and a < b iff serial(a) < serial(b), a = b iff equal serials on '
+               'the sampled pairs',
+               '"the serial equals the number of days since 30 December 1899": from 1 March 1900 on, exactly for whole days '
+               '(int or float of that value), within 1e-9 day (0.1 ms) for date-times; before 1 March 1900 only a number, '
+               'the round trip and the increase are demanded',
                '"adding n to a date gives the date n days later", "subtracting two dates gives the days between them" are '
                'corollaries ("Hence") of the Excel-1900 clause and are demanded where that clause applies: operands and '
                'result from 1 March 1900 to 31 December 9999 (1900-01-01 has serial 0 and 1900-01-02 serial 2, so '
-               'DATE(1900,1,1)+1 is 1900-01-01 again: outside the clause, reported as an observation)',
+               'DATE(1900,1,1)+1 is 1900-01-01 again: outside the clause, not judged); n is an integer, x+n, n+x and x-n '
+               'must each be a datetime (exact for whole days, else less than half a millisecond off), x-y a number (exact '
+               'for whole days, else within 1e-9 day)',
                'comparison operators "see that same serial": on two date-times from 1900 on each of < = > <= >= <> gives what '
-               'the same operator gives on the two instants (equivalently, by strict monotonicity, on their serials)',
-               'DATEVALUE, N (and DAYS) "see that same serial": DATEVALUE(d) = N(d) = serialize_date(d) for every date-time, '
-               'and = days since 1899-12-30 from 1 March 1900 on; DAYS(e,s) = the days between']
+               'the same operator gives on the two instants (equivalently, by strict monotonicity, on their serials), as the '
+               'logical True / False without error; a plain number against a date-time from 1 March 1900, on either side, '
+               'gives what the operator gives on the number and the exact days since 1899-12-30 (int and float alike)',
+               'DATEVALUE, N (and DAYS) "see that same serial": DATEVALUE(d) = N(d) = serialize_date(d) exactly for every '
+               'date-time, and = days since 1899-12-30 from 1 March 1900 on (exactly for whole days, else within 1e-9 day); '
+               'the same for DATEVALUE of the ISO text of d and of its whole-number serial; DAYS(e,s) = the days between, '
+               'both from 1 March 1900',
+               'a naive datetime means the same serial whatever the process time zone is: under a daylight-saving zone, also '
+               'inside its skipped and its repeated hour, every demand above holds unchanged']
 EXHAUSTIVE = {'quick': False, 'thorough': True}
 
 DT = datetime.datetime
@@ -802,7 +878,8 @@ def recs_agree(model_ans, recs, exact):
     if not isinstance(m, list) or len(m) != len(recs):
         return False
     for mm, rec in zip(m, recs):
-        # date-times: the difference of two serials cancels, so an absolute 1e-9 day (0.1 ms) is allowed besides 4 ulp
+        # date-times: the difference of two serials cancels, so besides 4 ulp a slack of 1e-9 * max(1, |value|) is allowed
+        # (fx.value_matches: `rel` scales with the value, it is not an absolute 1e-9 day)
         ok = fx.record_matches(mm[1], rec, ulps=0 if exact else 4, rel=0.0 if exact else 1e-9)
         if ok is False:
             return False
